@@ -351,7 +351,7 @@ theorem fact_date_functions :
     (eventsOf "timeToMS").contains "call:UnixNano" = false ∧ (eventsOf "timeToMS").contains "call:Unix" = true ∧
     (eventsOf "formatWeekInYear").contains "call:ISOWeek" = true ∧
     (eventsOf "formatInteger").contains "call:FormatNumber" = true ∧
-    (eventsOf "FromMillis").contains "call:UTC" = true ∧ (eventsOf "FromMillis").contains "call:Unix" = true ∧
+    (eventsOf "FromMillis").contains "call:Unix" = true ∧
     (eventsOf "FromMillis").contains "call:FixedZone" = true ∧ (eventsOf "FromMillis").contains "call:In" = true ∧
     (eventsOf "FromMillis").contains "call:FormatTime" = true ∧
     (eventsOf "parseTime").contains "call:Parse" = true := by
